@@ -613,7 +613,7 @@ keyword(struct token *tok)
 		mid = (low + high) / 2;
 		cmp = strcmp(tok->lit, keywords[mid].name);
 		if (cmp == 0) {
-			free(tok->lit);
+			/* the spelling may be owned by a macro replacement list */
 			tok->kind = keywords[mid].value;
 			tok->lit = NULL;
 			break;
